@@ -2,6 +2,7 @@ package main
 
 import (
 	"encoding/json"
+	"runtime/pprof"
 	"flag"
 	"fmt"
 	"os"
@@ -45,13 +46,20 @@ type NamedResult struct {
 }
 
 func main() {
+	if pf := os.Getenv("GOVC_CPUPROFILE"); pf != "" {
+		f, _ := os.Create(pf)
+		pprof.StartCPUProfile(f)
+		defer pprof.StopCPUProfile()
+	}
 	if len(os.Args) < 2 {
 		fmt.Println("usage: govc check|dump ...")
 		os.Exit(2)
 	}
 	switch os.Args[1] {
 	case "check":
-		os.Exit(cmdCheck(os.Args[2:]))
+		rc := cmdCheck(os.Args[2:])
+		pprof.StopCPUProfile()
+		os.Exit(rc)
 	case "dump":
 		os.Exit(cmdDump(os.Args[2:]))
 	default:
@@ -435,7 +443,11 @@ func discharge(obls []*Obligation, dir string, timeout int) []*NamedResult {
 				}
 				comb := &Obligation{Unit: todo[0].Unit, Kind: "group", Label: todo[0].Site, Assumes: todo[0].Assumes, Goal: And(goals...), prog: todo[0].prog, Inputs: todo[0].Inputs}
 				sc := comb.prog.buildScript(comb)
-				r := Solve(dir, fmt.Sprintf("g%d_%s", gi, comb.Name()), sc, timeout)
+				gto := timeout
+				if gto > 3 {
+					gto = 3 // the conjunction is only a shortcut: fall back to per-clause queries quickly
+				}
+				r := Solve(dir, fmt.Sprintf("g%d_%s", gi, comb.Name()), sc, gto)
 				mu.Lock()
 				for _, o := range todo {
 					qcount[o]++
